@@ -4,10 +4,12 @@ import (
 	"go/ast"
 	"go/token"
 	"go/types"
+	"regexp"
 	"sort"
 	"strings"
 
 	"lndlint/internal/an"
+	"lndlint/internal/flow"
 )
 
 // c05AllDefs lists every expression assigned to the local obj in the root
@@ -276,4 +278,98 @@ func c05CsvRoles(r *an.Run) {
 				}
 			}
 		})
+}
+
+// c05HtlcsOfTheConfirmedState: NewLocalForceCloseSummary builds its key ring
+// for the state number that confirmed but knows HTLCs (with output indexes and
+// second-level signatures) only for the local commitment in the database.  The
+// list handed to extractHtlcResolutions is a local with exactly one non-nil
+// definition, `<commitment of the fee rate>.Htlcs`; every other definition is
+// nil and lies below `state number != <that commitment>.CommitHeight`; and the
+// non-nil definition reaches the call only through the equality of the two
+// (repair f76866c: stale output indexes were used on another state's
+// transaction).
+func c05HtlcsOfTheConfirmedState(o *an.Obl, f *an.Func, call an.Site, feeBase string, a []string) {
+	key := func(s string) string { return f.ID + "#" + s }
+	m := regexp.MustCompile(`RevocationProducer\.AtIndex\((\$p\d+)\)`).FindStringSubmatch(a[4])
+	if m == nil {
+		o.FailAt(key("key-ring-height"), call.Where(), "cannot tell the state number the key ring %s was derived at", a[4])
+		return
+	}
+	stateNum := canonTerm(`^` + regexp.QuoteMeta(m[1]) + `$`)
+	height := canonTerm(`^` + regexp.QuoteMeta(feeBase) + `\.CommitHeight$`)
+	same := an.Cmp(stateNum, an.EQ, height, "confirmed state number == CommitHeight of the commitment the HTLCs belong to")
+	differ := an.Cmp(stateNum, an.NE, height, "confirmed state number != CommitHeight of the commitment the HTLCs belong to")
+	arg := an.Strip(f.Info(), call.Node.(*ast.CallExpr).Args[3])
+	id, ok := arg.(*ast.Ident)
+	if !ok {
+		// handed over directly: then the call itself must be below the equality
+		if a[3] != feeBase+".Htlcs" {
+			o.FailAt(key("fee-and-htlcs-same-commitment"), call.Where(), "the HTLC list %s and the fee rate %s are taken from different commitments", a[3], a[0])
+		}
+		guarded(o, f, call, same)
+		return
+	}
+	obj := f.Info().Uses[id]
+	var full, empty []an.Site
+	for _, v := range f.Graph().V {
+		for _, how := range assignedTo(f, v, obj) {
+			s := an.Site{Fn: f, V: v, Node: v.Node}
+			if how == "decl" {
+				empty = append(empty, s) // `var htlcs []HTLC`: the empty list
+				continue
+			}
+			rhs := rhsFor(f, s, obj)
+			switch {
+			case rhs != nil && an.IsNilIdent(f.Info(), rhs):
+				empty = append(empty, s)
+			case rhs != nil && f.Canon(rhs) == feeBase+".Htlcs":
+				full = append(full, s)
+			default:
+				o.FailAt(key("fee-and-htlcs-same-commitment"), s.Where(), "the HTLC list handed to extractHtlcResolutions is set by %s; expected %s.Htlcs (the commitment the fee rate %s is taken from) or nil", an.Text(v.Node), feeBase, a[0])
+			}
+		}
+	}
+	if len(full) != 1 {
+		o.FailAt(key("fee-and-htlcs-same-commitment"), call.Where(), "expected exactly one definition of the HTLC list %s from %s.Htlcs, found %d", id.Name, feeBase, len(full))
+		return
+	}
+	for _, st := range c04Overwrites(f, obj) {
+		if _, isAssign := st.(*ast.AssignStmt); !isAssign {
+			o.FailAt(key("htlc-list-modified"), f.Where(st.Pos()), "the HTLC list is modified by %s", an.Text(st))
+		}
+	}
+	// the list is not re-sliced / appended to through another name: any use
+	// of the variable other than the call argument and len() is reported
+	ast.Inspect(f.Body, func(n ast.Node) bool {
+		if u, ok := n.(*ast.UnaryExpr); ok && u.Op == token.AND {
+			if x, ok := ast.Unparen(u.X).(*ast.Ident); ok && f.Info().Uses[x] == obj {
+				o.FailAt(key("htlc-list-address-taken"), f.Where(u.Pos()), "the address of the HTLC list is taken: %s", an.Text(u))
+			}
+		}
+		return true
+	})
+	o.Site("%s: HTLC list %s = %s.Htlcs, %d empty definitions", f.ID, id.Name, feeBase, len(empty))
+	for _, s := range empty {
+		if _, isDecl := s.Node.(*ast.DeclStmt); isDecl {
+			continue
+		}
+		// dropping the HTLCs of the state that did confirm loses their outputs
+		guarded(o, f, s, differ)
+	}
+	// the full list reaches the call only through the equality
+	cut := f.EdgesOf(same)
+	stop := map[*flow.Vertex]bool{}
+	for _, s := range empty {
+		if s.V != full[0].V {
+			stop[s.V] = true
+		}
+	}
+	o.Site("%s: %s.Htlcs reaches extractHtlcResolutions only where [%s] (%d establishing edges)", f.ID, feeBase, same.Desc, len(cut))
+	if reach := f.Graph().Reach(full[0].V, cut, stop); reach[call.V] && !stop[call.V] {
+		o.FailAt(key("htlcs-of-another-state"), call.Where(), "the HTLCs of %s (output indexes, second-level signatures) are resolved on the confirmed transaction although the state number %s the keys were derived at was not compared equal to %s.CommitHeight: on a node behind its own confirmed commitment the indexes are out of range or point at unrelated outputs", feeBase, m[1], feeBase)
+	}
+	if !f.Before(full, call) {
+		o.FailAt(key("htlcs-defined-before-use"), call.Where(), "extractHtlcResolutions can be reached before the HTLC list is defined")
+	}
 }
